@@ -333,8 +333,9 @@ def write_evidence(prop, tier, seed, roots, seen, results, obl, n_obl, n_dis, vi
         ent["paths"] = sum(r["paths"] for r in results if r["contract"] == ref)
         ent["obligations"] = sorted(o["oid"] for o in obl.values() if o["contract"] == ref)
         funcs.append(ent)
+    used_anywhere = {u for r in results for u in r.get("used_stubs", [])}
     for ref, C in CONTRACTS.items():
-        if not C.verify:
+        if not C.verify and (prop in C.props or ref in used_anywhere):
             trusted.append(f"assumed contract (not verified): {ref}: {C.trusted_reason}")
     by_backend = {}
     for o in obl.values():
